@@ -78,7 +78,7 @@ m = {
  "engines": [
   {"name": "vloop-world", "path": "mc/", "serves_properties": sorted(CHECKS), "kind_free_text": "hand-rolled explicit-state / stateless explorer over the real asyncfix objects: virtual asyncio loop, fake transport, sqlite step proxy, reference oracles"}],
  "checks": [], "not_applicable": [],
- "notes": "See DESIGN.md. ./check <ID> [--tier quick|thorough] [--replay FILE]; exit 0 held, 1 violation, 2 harness error."}
+ "notes": "See DESIGN.md (section 9: as built, dispositions, seeded changes). ./check <ID> [--tier quick|thorough] [--replay FILE]; exit 0 held, 1 violation, 2 harness error. known_findings.json: open entries (printed as KNOWN-FINDING, each suppresses exactly its signature) and fixed entries with the /repo commit (suppress nothing). ./selftest runs the checks against the seeded property-breaking changes under seeded/ (scratch copies only)."}
 for pid in ALL:
     if pid in CHECKS:
         c = CHECKS[pid]
